@@ -91,6 +91,7 @@ def encVal : Val → String
   | .ctx c => s!"ctx:{c.size}"
   | .carr n l b => s!"C:{n}:{l}:" ++ encNats b
   | .ptrs l => "P:" ++ ";".intercalate (l.map encNats)
+  | .vstr l => "VS:" ++ ";".intercalate (l.map encNats)
   | .ref a l => s!"R:{a}:" ++ ",".intercalate (l.map toString)
 
 def dv (s : String) : Val := decVal (s.splitOn ":")
